@@ -113,6 +113,8 @@ type helper struct {
 	bad   string // reason it cannot be expanded
 	done  bool
 	nexp  int // calls expanded
+
+	needsFrame bool // uses defer or recover: can only become the body of a function literal
 }
 
 type normalizer struct {
@@ -139,7 +141,7 @@ const markPos = token.Pos(1)
 // Normalize expands calls to functions that are not in the inventory. It
 // rewrites pk.Syntax in place and re-type-checks the module packages; pkgs must
 // be the module's packages, all maps every loaded package by path.
-func Normalize(fset *token.FileSet, pkgs []*packages.Package, all map[string]*packages.Package, inventory map[string]bool) (*Result, error) {
+func Normalize(fset *token.FileSet, pkgs []*packages.Package, all map[string]*packages.Package, known map[string]bool) (*Result, error) {
 	n := &normalizer{fset: fset, res: &Result{Orig: map[token.Pos]token.Pos{}, Changed: map[*packages.Package]bool{}},
 		helpers: map[*types.Func]*helper{}, origDecl: map[*ast.FuncDecl]*ast.FuncDecl{}, rew: map[*ast.FuncDecl]bool{},
 		wrappers: map[*ast.BlockStmt]bool{}, addImp: map[*ast.File]map[string]string{}, removed: map[*packages.Package][]removedDecl{}}
@@ -158,7 +160,7 @@ func Normalize(fset *token.FileSet, pkgs []*packages.Package, all map[string]*pa
 				}
 				decls = append(decls, declIn{fd, pk, f})
 				key := FuncKey(pk.PkgPath, fd)
-				if inventory[key] || fd.Name.Name == "init" || fd.Name.Name == "main" || fd.Name.Name == "_" {
+				if known[key] || fd.Name.Name == "init" || fd.Name.Name == "main" || fd.Name.Name == "_" {
 					continue
 				}
 				obj, _ := pk.TypesInfo.Defs[fd.Name].(*types.Func)
@@ -333,11 +335,11 @@ func (n *normalizer) vet(h *helper) {
 		case *ast.FuncLit:
 			return false // defers and returns of nested literals are their own
 		case *ast.DeferStmt:
-			h.bad = "defer"
+			h.needsFrame = true
 		case *ast.CallExpr:
 			if id, ok := x.Fun.(*ast.Ident); ok {
 				if b, ok := info.Uses[id].(*types.Builtin); ok && b.Name() == "recover" {
-					h.bad = "recover"
+					h.needsFrame = true
 				}
 			}
 		}
@@ -428,6 +430,12 @@ func (r *rewriter) helperOf(c *ast.CallExpr) *helper {
 // expandable reports whether c is a call to a helper that can be expanded here;
 // a non-empty reason is recorded as a skip.
 func (r *rewriter) expandable(c *ast.CallExpr) (*helper, string) {
+	return r.expandableAs(c, false)
+}
+
+// expandableAs: with literal set, the expansion becomes the whole body of a
+// function literal (go / defer statements), where defer and recover keep their meaning.
+func (r *rewriter) expandableAs(c *ast.CallExpr, literal bool) (*helper, string) {
 	h := r.helperOf(c)
 	if h == nil {
 		return nil, ""
@@ -435,6 +443,7 @@ func (r *rewriter) expandable(c *ast.CallExpr) (*helper, string) {
 	if h.bad != "" {
 		return nil, h.bad
 	}
+	_ = literal // a helper that uses defer or recover is expanded as the body of a function literal either way
 	if h.pk != r.pk {
 		return nil, "other package"
 	}
@@ -798,11 +807,170 @@ func (r *rewriter) stmt(s ast.Stmt) []ast.Stmt {
 func (r *rewriter) callStmt(s ast.Stmt, c *ast.CallExpr) []ast.Stmt {
 	var pre []ast.Stmt
 	st := &evalState{}
-	if h := r.helperOf(c); h != nil {
-		r.skip(c, "go/defer")
-	}
 	r.hoistCallOperands(c, &pre, st)
-	return append(pre, s)
+	if h, why := r.expandableAs(c, true); h != nil && !st.blocked {
+		// go f(a, b)  ==>  { a0, b0 := a, b; go func() R { <body of f> }() }
+		lit := r.expandLiteral(c, h, &pre)
+		nc := &ast.CallExpr{Fun: lit, Lparen: markPos, Rparen: markPos}
+		switch x := s.(type) {
+		case *ast.GoStmt:
+			x.Call = nc
+		case *ast.DeferStmt:
+			x.Call = nc
+		}
+		return r.wrap(pre, s)
+	} else if h != nil {
+		r.skip(c, "evaluation order")
+	} else if why != "" {
+		r.skip(c, why)
+	}
+	return r.wrap(pre, s)
+}
+
+// bindParams evaluates the receiver and arguments of call c to helper h into
+// fresh temporaries (appended to *outer, in the caller's scope) and returns the
+// statements that declare the helper's own parameter names from them.
+func (r *rewriter) bindParams(c *ast.CallExpr, h *helper, outer *[]ast.Stmt) (inner []ast.Stmt) {
+	n := r.n
+	d := h.decl
+	if d.Recv != nil {
+		sel := ast.Unparen(c.Fun).(*ast.SelectorExpr)
+		var recv ast.Expr = sel.X
+		s := r.pk.TypesInfo.Selections[sel]
+		_, wantPtr := d.Recv.List[0].Type.(*ast.StarExpr)
+		_, havePtr := s.Recv().Underlying().(*types.Pointer)
+		switch {
+		case wantPtr && !havePtr:
+			recv = &ast.UnaryExpr{Op: token.AND, OpPos: markPos, X: &ast.ParenExpr{Lparen: markPos, X: recv, Rparen: markPos}}
+		case !wantPtr && havePtr:
+			recv = &ast.StarExpr{Star: markPos, X: &ast.ParenExpr{Lparen: markPos, X: recv, Rparen: markPos}}
+		}
+		a := n.fresh("a")
+		*outer = append(*outer, varDecl(a, copyNode(d.Recv.List[0].Type).(ast.Expr), recv))
+		if len(d.Recv.List[0].Names) == 1 && d.Recv.List[0].Names[0].Name != "_" {
+			inner = append(inner, define(ident(d.Recv.List[0].Names[0].Name), ident(a)))
+			inner = append(inner, assign(ident("_"), ident(d.Recv.List[0].Names[0].Name)))
+		} else {
+			*outer = append(*outer, assign(ident("_"), ident(a)))
+		}
+	}
+	type par struct {
+		name string
+		typ  ast.Expr
+		vari bool
+	}
+	var pars []par
+	for _, f := range d.Type.Params.List {
+		t := f.Type
+		vari := false
+		if el, ok := t.(*ast.Ellipsis); ok {
+			t = &ast.ArrayType{Lbrack: markPos, Elt: el.Elt}
+			vari = true
+		}
+		if len(f.Names) == 0 {
+			pars = append(pars, par{"_", t, vari})
+		}
+		for _, nm := range f.Names {
+			pars = append(pars, par{nm.Name, t, vari})
+		}
+	}
+	args := c.Args
+	tupleArg := false
+	if len(args) == 1 && len(pars) > 1 {
+		if tv, ok := r.pk.TypesInfo.Types[args[0]]; ok {
+			if _, isTuple := tv.Type.(*types.Tuple); isTuple {
+				tupleArg = true
+			}
+		}
+	}
+	var temps []string
+	if tupleArg {
+		var lhs []ast.Expr
+		for range pars {
+			t := n.fresh("a")
+			temps = append(temps, t)
+			lhs = append(lhs, ident(t))
+		}
+		*outer = append(*outer, &ast.AssignStmt{Lhs: lhs, Tok: token.DEFINE, TokPos: markPos, Rhs: []ast.Expr{args[0]}})
+	} else {
+		for i, p := range pars {
+			t := n.fresh("a")
+			temps = append(temps, t)
+			switch {
+			case p.vari && c.Ellipsis.IsValid():
+				*outer = append(*outer, varDecl(t, copyNode(p.typ).(ast.Expr), args[i]))
+			case p.vari:
+				if len(args) > i {
+					lit := &ast.CompositeLit{Type: copyNode(p.typ).(ast.Expr), Lbrace: markPos, Rbrace: markPos, Elts: append([]ast.Expr{}, args[i:]...)}
+					*outer = append(*outer, varDecl(t, copyNode(p.typ).(ast.Expr), lit))
+				} else {
+					*outer = append(*outer, varDecl(t, copyNode(p.typ).(ast.Expr), nil))
+				}
+			default:
+				*outer = append(*outer, varDecl(t, copyNode(p.typ).(ast.Expr), args[i]))
+			}
+		}
+	}
+	for i, p := range pars {
+		if p.name == "_" {
+			*outer = append(*outer, assign(ident("_"), ident(temps[i])))
+			continue
+		}
+		inner = append(inner, define(ident(p.name), ident(temps[i])))
+		inner = append(inner, assign(ident("_"), ident(p.name)))
+	}
+	return inner
+}
+
+func (r *rewriter) noteExpansion(c *ast.CallExpr, h *helper) {
+	n := r.n
+	r.any = true
+	n.res.Sites = append(n.res.Sites, Site{Caller: r.caller, Callee: h.key, Pos: c.Lparen})
+	h.nexp++
+	// imports of the helper's file that this file lacks
+	if h.file != r.file {
+		scope := r.pk.TypesInfo.Scopes[r.file]
+		for name, o := range h.free {
+			pn, ok := o.(*types.PkgName)
+			if !ok {
+				continue
+			}
+			if scope != nil && scope.Lookup(name) != nil {
+				continue
+			}
+			if n.addImp[r.file] == nil {
+				n.addImp[r.file] = map[string]string{}
+			}
+			n.addImp[r.file][name] = pn.Imported().Path()
+		}
+	}
+	if obj, _ := r.pk.TypesInfo.Defs[r.decl.Name].(*types.Func); obj != nil {
+		if encl := n.helpers[obj]; encl != nil && encl.free != nil {
+			for k, v := range h.free {
+				if prev, ok := encl.free[k]; ok && prev != v {
+					encl.bad = "ambiguous free name " + k
+				}
+				encl.free[k] = v
+			}
+			if h.needsFrame {
+				// (only reachable through a literal, which is its own frame)
+			}
+		}
+	}
+}
+
+// expandLiteral builds `func() R { <params>; <body of h> }` for a go or defer
+// statement; the arguments are evaluated into temporaries in *pre.
+func (r *rewriter) expandLiteral(c *ast.CallExpr, h *helper, pre *[]ast.Stmt) *ast.FuncLit {
+	r.noteExpansion(c, h)
+	d := h.decl
+	inner := r.bindParams(c, h, pre)
+	body := copyNode(d.Body).(*ast.BlockStmt)
+	ft := &ast.FuncType{Func: markPos, Params: &ast.FieldList{Opening: markPos, Closing: markPos}}
+	if d.Type.Results != nil {
+		ft.Results = copyNode(d.Type.Results).(*ast.FieldList)
+	}
+	return &ast.FuncLit{Type: ft, Body: &ast.BlockStmt{Lbrace: markPos, Rbrace: markPos, List: append(inner, body.List...)}}
 }
 
 func (r *rewriter) skipAll(x ast.Node, reason string) {
@@ -1134,36 +1302,7 @@ func varDecl(name string, typ ast.Expr, val ast.Expr) ast.Stmt {
 // identifiers that hold its results.
 func (r *rewriter) expand(c *ast.CallExpr, h *helper, pre *[]ast.Stmt) []ast.Expr {
 	n := r.n
-	r.any = true
-	n.res.Sites = append(n.res.Sites, Site{Caller: r.caller, Callee: h.key, Pos: c.Lparen})
-	h.nexp++
-	// imports of the helper's file that this file lacks
-	if h.file != r.file {
-		scope := r.pk.TypesInfo.Scopes[r.file]
-		for name, o := range h.free {
-			pn, ok := o.(*types.PkgName)
-			if !ok {
-				continue
-			}
-			if scope != nil && scope.Lookup(name) != nil {
-				continue
-			}
-			if n.addImp[r.file] == nil {
-				n.addImp[r.file] = map[string]string{}
-			}
-			n.addImp[r.file][name] = pn.Imported().Path()
-		}
-	}
-	if obj, _ := r.pk.TypesInfo.Defs[r.decl.Name].(*types.Func); obj != nil {
-		if encl := n.helpers[obj]; encl != nil && encl.free != nil {
-			for k, v := range h.free {
-				if prev, ok := encl.free[k]; ok && prev != v {
-					encl.bad = "ambiguous free name " + k
-				}
-				encl.free[k] = v
-			}
-		}
-	}
+	r.noteExpansion(c, h)
 	d := h.decl
 	var results []ast.Expr
 	var resNames []string
@@ -1184,94 +1323,29 @@ func (r *rewriter) expand(c *ast.CallExpr, h *helper, pre *[]ast.Stmt) []ast.Exp
 	}
 	outer := &ast.BlockStmt{Lbrace: markPos, Rbrace: markPos}
 	inner := &ast.BlockStmt{Lbrace: markPos, Rbrace: markPos}
-	// receiver
-	if d.Recv != nil {
-		sel := ast.Unparen(c.Fun).(*ast.SelectorExpr)
-		var recv ast.Expr = sel.X
-		s := r.pk.TypesInfo.Selections[sel]
-		_, wantPtr := d.Recv.List[0].Type.(*ast.StarExpr)
-		_, havePtr := s.Recv().Underlying().(*types.Pointer)
-		switch {
-		case wantPtr && !havePtr:
-			recv = &ast.UnaryExpr{Op: token.AND, OpPos: markPos, X: &ast.ParenExpr{Lparen: markPos, X: recv, Rparen: markPos}}
-		case !wantPtr && havePtr:
-			recv = &ast.StarExpr{Star: markPos, X: &ast.ParenExpr{Lparen: markPos, X: recv, Rparen: markPos}}
+	if h.needsFrame {
+		// defer / recover need their own frame:  r1, r2 = func() (R1, R2) { <params>; <body> }()
+		bound := r.bindParams(c, h, &outer.List)
+		body := copyNode(d.Body).(*ast.BlockStmt)
+		ft := &ast.FuncType{Func: markPos, Params: &ast.FieldList{Opening: markPos, Closing: markPos}}
+		if d.Type.Results != nil {
+			ft.Results = copyNode(d.Type.Results).(*ast.FieldList)
 		}
-		a := n.fresh("a")
-		outer.List = append(outer.List, varDecl(a, copyNode(d.Recv.List[0].Type).(ast.Expr), recv))
-		if len(d.Recv.List[0].Names) == 1 && d.Recv.List[0].Names[0].Name != "_" {
-			inner.List = append(inner.List, define(ident(d.Recv.List[0].Names[0].Name), ident(a)))
-			inner.List = append(inner.List, assign(ident("_"), ident(d.Recv.List[0].Names[0].Name)))
+		lit := &ast.FuncLit{Type: ft, Body: &ast.BlockStmt{Lbrace: markPos, Rbrace: markPos, List: append(bound, body.List...)}}
+		call := &ast.CallExpr{Fun: lit, Lparen: markPos, Rparen: markPos}
+		if len(results) == 0 {
+			outer.List = append(outer.List, &ast.ExprStmt{X: call})
 		} else {
-			outer.List = append(outer.List, assign(ident("_"), ident(a)))
+			outer.List = append(outer.List, &ast.AssignStmt{Lhs: append([]ast.Expr{}, results...), Tok: token.ASSIGN, TokPos: markPos, Rhs: []ast.Expr{call}})
 		}
+		*pre = append(*pre, outer)
+		out := make([]ast.Expr, len(resNames))
+		for i, rn := range resNames {
+			out[i] = ident(rn)
+		}
+		return out
 	}
-	// parameters
-	type par struct {
-		name string
-		typ  ast.Expr
-		vari bool
-	}
-	var pars []par
-	for _, f := range d.Type.Params.List {
-		t := f.Type
-		vari := false
-		if el, ok := t.(*ast.Ellipsis); ok {
-			t = &ast.ArrayType{Lbrack: markPos, Elt: el.Elt}
-			vari = true
-		}
-		if len(f.Names) == 0 {
-			pars = append(pars, par{"_", t, vari})
-		}
-		for _, nm := range f.Names {
-			pars = append(pars, par{nm.Name, t, vari})
-		}
-	}
-	args := c.Args
-	tupleArg := false
-	if len(args) == 1 && len(pars) > 1 {
-		if tv, ok := r.pk.TypesInfo.Types[args[0]]; ok {
-			if _, isTuple := tv.Type.(*types.Tuple); isTuple {
-				tupleArg = true
-			}
-		}
-	}
-	var temps []string
-	if tupleArg {
-		var lhs []ast.Expr
-		for range pars {
-			t := n.fresh("a")
-			temps = append(temps, t)
-			lhs = append(lhs, ident(t))
-		}
-		outer.List = append(outer.List, &ast.AssignStmt{Lhs: lhs, Tok: token.DEFINE, TokPos: markPos, Rhs: []ast.Expr{args[0]}})
-	} else {
-		for i, p := range pars {
-			t := n.fresh("a")
-			temps = append(temps, t)
-			switch {
-			case p.vari && c.Ellipsis.IsValid():
-				outer.List = append(outer.List, varDecl(t, copyNode(p.typ).(ast.Expr), args[i]))
-			case p.vari:
-				if len(args) > i {
-					lit := &ast.CompositeLit{Type: copyNode(p.typ).(ast.Expr), Lbrace: markPos, Rbrace: markPos, Elts: append([]ast.Expr{}, args[i:]...)}
-					outer.List = append(outer.List, varDecl(t, copyNode(p.typ).(ast.Expr), lit))
-				} else {
-					outer.List = append(outer.List, varDecl(t, copyNode(p.typ).(ast.Expr), nil))
-				}
-			default:
-				outer.List = append(outer.List, varDecl(t, copyNode(p.typ).(ast.Expr), args[i]))
-			}
-		}
-	}
-	for i, p := range pars {
-		if p.name == "_" {
-			outer.List = append(outer.List, assign(ident("_"), ident(temps[i])))
-			continue
-		}
-		inner.List = append(inner.List, define(ident(p.name), ident(temps[i])))
-		inner.List = append(inner.List, assign(ident("_"), ident(p.name)))
-	}
+	inner.List = r.bindParams(c, h, &outer.List)
 	// named results are ordinary locals of the copy
 	var named []string
 	if d.Type.Results != nil {
